@@ -40,6 +40,11 @@ DIRECT_USES = {
     "shapes/autoshape.py|AutoShapeType.id_from_prst|MSO_AUTO_SHAPE_TYPE.from_xml": ("a:prstGeom", "prst"),
     "shapes/autoshape.py|AutoShapeType.prst|MSO_AUTO_SHAPE_TYPE.to_xml": ("a:prstGeom", "prst"),
     "oxml/shapes/groupshape.py|CT_GroupShape.add_cxnSp|MSO_CONNECTOR_TYPE.to_xml": ("a:prstGeom", "prst"),
+    # validate-before-mutate calls added by the "rejected setter left a half-built element" fixes
+    "dml/color.py|ColorFormat.theme_color|MSO_THEME_COLOR_INDEX.to_xml": ("a:schemeClr", "val"),
+    "chart/datalabel.py|DataLabels.position|XL_DATA_LABEL_POSITION.to_xml": ("c:dLblPos", "val"),
+    "chart/datalabel.py|DataLabel.position|XL_DATA_LABEL_POSITION.to_xml": ("c:dLblPos", "val"),
+    "chart/marker.py|Marker.style|XL_MARKER_STYLE.to_xml": ("c:symbol", "val"),
 }
 
 
